@@ -292,7 +292,8 @@ type observed struct {
 	Msg   string `json:"panic_value,omitempty"`
 }
 
-func (prop) Run(in json.RawMessage, _ string) core.Result {
+// runLocal executes the real code on one input in THIS process (called in a supervised worker, see worker.go)
+func runLocal(in json.RawMessage) core.Result {
 	var s Snip
 	var res core.Result
 	if err := json.Unmarshal(in, &s); err != nil {
